@@ -1,8 +1,9 @@
 SPECIFICATION Spec
 CONSTANTS
-  NRand = 150
+  NRand = 120
   WsCount = 8
   PreLayouts = 2
+  NRandS = 60
 INVARIANTS
   Inv_Layout
   Inv_Norm
